@@ -38,7 +38,14 @@ def snapshot(tree):
 
 def _subprocess_job(job):
     from harness import cli
-    res = cli.run_subprocess(job["argv"], hashseed=job["seed"])
+    # every run of a group differs from the others in what is NOT an input of the comparison: the string-hash seed, the
+    # wall clock (shifted by days), the working directory, the user / home / time zone / terminal width of the environment
+    k = job["seed"]
+    res = cli.run_subprocess(job["argv"], hashseed=k, clock_shift=k * 86400.0 * 37 + k * 4271.0,
+                             cwd=("/", "/var/tmp", "/usr", "/etc")[k % 4],
+                             extra_env={"TZ": ("UTC", "Asia/Tokyo", "America/New_York", "Europe/Berlin")[k % 4],
+                                        "COLUMNS": str((80, 20, 200, 132)[k % 4]), "USER": "user%d" % k, "LOGNAME": "user%d" % k,
+                                        "HOME": ("/root", "/nonexistent", "/var/tmp", "/")[k % 4]})
     return {"v": "%s/%s" % (digest(res["out"].decode("latin-1")), res["rc"]), "raised": bool(res["exc"]),
             "err": res["err"][-300:].decode("latin-1") if res["exc"] else ""}
 
@@ -188,8 +195,13 @@ def run():
                 b["new"] = [1, 2]
         fa = mats.file(json.dumps(a).encode(), ".json", "a")
         fb = mats.file(json.dumps(b).encode(), ".json", "b")
-        for opts, mode in ((docs.ALL_OPTS[6], []), (docs.ALL_OPTS[0], []), (docs.ALL_OPTS[6], ["-e"]))[: (2 if t == "quick" and i % 2 and i % 5 != 4 else 3)]:
-            argv = [fa, fb, "--no-status", "--no-color"] + clim.opt_args(opts) + mode
+        variants = [(docs.ALL_OPTS[6], []), (docs.ALL_OPTS[0], []), (docs.ALL_OPTS[6], ["-e"])][: (2 if t == "quick" and i % 2 and i % 5 != 4 else 3)]
+        # every way of producing output: HTML, colour, other output formats, the digest
+        variants.append((docs.ALL_OPTS[i % len(docs.ALL_OPTS)],
+                         (["--html"], ["--color"], ["--format", "yaml"], ["-d"], ["--html", "-e"], ["--format", "xml"], ["--join-lists"],
+                          ["--join-dict-items"], ["--condensed"])[i % 9]))
+        for opts, mode in variants:
+            argv = [fa, fb, "--no-status"] + ([] if "--color" in mode else ["--no-color"]) + clim.opt_args(opts) + mode
             gi = len(groups_meta)
             groups_meta.append({"a": a, "b": b, "argv": argv[2:]})
             for s in seeds:
@@ -199,7 +211,7 @@ def run():
         results = pool.map(_subprocess_job, jobs, chunksize=2)
     groups = [[] for _ in groups_meta]
     for job, res in zip(jobs, results):
-        groups[job["group"]].append({"k": "run", "v": res["v"], "raised": res["raised"], "how": "PYTHONHASHSEED=%d" % job["seed"],
+        groups[job["group"]].append({"k": "run", "v": res["v"], "raised": res["raised"], "how": "PYTHONHASHSEED=%d, clock +%d days, its own cwd / TZ / USER / HOME / COLUMNS" % (job["seed"], job["seed"] * 37),
                                      "err": res["err"]})
     verdicts, st = functional.validate_groups(groups, name="C07-seeds")
     chk.add_trace_stats(st, "FunctionalTrace", len(jobs))
